@@ -537,6 +537,8 @@ func rulesC06(e *Engine, r *Report) {
 	e.shareRule(r, "C15", "R15.5", "R06.15", "the stage that recovers is the stage that serves: the gatekeeper on which Recover is started at start-up is stored under the key requests look it up by (the source name, not its directory spelling) - otherwise a second stage is built over the same directories, ready at once, with an empty cache")
 	// ---------------------------------------------------------------- R06.16
 	e.shareRule(r, "C05", "R05.16", "R06.16", "a file already logged and delivered is not delivered again after a crash: the leftovers of a duplicate that was being discarded (partial and complete companion) are not promoted, validated and moved by the recovery")
+	// ---------------------------------------------------------------- R06.17
+	e.shareRule(r, "C18", "R18.6", "R06.17", "the record of a delivery is where a restart will look for it: the receive log re-opens its day file when that file has vanished from its path, so that a record written before the move - the receiver's only durable knowledge of a delivery - does not go to an unlinked inode")
 }
 
 // checkRecoverReadiness: Recover keeps readiness cleared across every step and
